@@ -117,6 +117,7 @@ func checkKey(c *mc.Ctx, priv []byte, tweaks []byte, cands []*big.Int, cosetOf m
 			return
 		}
 		c.Observe(fmt.Sprintf("%x/%x", priv[:4], tw), fmt.Sprintf("%x", repr[:4]))
+		c.Case(fmt.Sprintf("key %x tweak %x", priv, tw), fmt.Sprintf("%x", repr))
 	}
 	return
 }
@@ -189,6 +190,7 @@ func decodeScenario(name string, strs [][]byte) mc.Scenario {
 				}
 			}
 			c.Observe(fmt.Sprintf("%x", s[:6]), fmt.Sprintf("%x", outs[0][:4]))
+			c.Case(fmt.Sprintf("decode %x", s), fmt.Sprintf("%x", outs[0]))
 		}
 		c.AddExecutions(int64(n))
 		c.Count("decode_evaluations", int64(n))
@@ -263,7 +265,7 @@ func main() {
 				adjacent = append(adjacent, le(new(big.Int).Add(pow(b), pow(b+1))))
 			}
 		}
-		step := 4
+		step := 2
 		if thorough {
 			step = 1
 		}
@@ -290,7 +292,7 @@ func main() {
 			emit(keyScenario(fmt.Sprintf("keys/adjacent-bits/%d", lo), sel[lo:hi], fewTweaks, false))
 		}
 		// the eight low-3-bit patterns on K pseudo-random high parts: all eight cosets
-		K := 12
+		K := 16
 		if thorough {
 			K = 32
 		}
@@ -333,7 +335,7 @@ func main() {
 				strs = append(strs, le(p))
 			}
 		}
-		KR := 64
+		KR := 256
 		if thorough {
 			KR = 2048
 		}
